@@ -7,7 +7,7 @@ from .. import sym as S
 from ..engine import HOLDS, UNDECIDED, VIOLATED, Check
 from ..loader import AnalysisError, parent
 from ..recon import _own_nodes
-from ..rulelib import (eval_conds, appended_in_round, simulate_loop, appends_in, calls_named, carried_with_entry, classify_effect, conds_sym, field_map, func_outcomes,
+from ..rulelib import (split_alternatives, eval_conds, appended_in_round, simulate_loop, appends_in, calls_named, carried_with_entry, classify_effect, conds_sym, field_map, func_outcomes,
                        loop_carried, loops_of, reach_table, spec_expr)
 
 LEVEL = "other"
@@ -381,94 +381,111 @@ def locations(chk: Check):
                 t = R.expr(ctx, n, ctx.cfg.node_for(n))
                 if t[0] == "call" and t[1].endswith(ctor) and t[2]:
                     opens.append((n, t[2][0], conds_sym(chk, ctx, n)))
-        rule = ("K-PATH", f"{fmt}:parent-candidates")
-        if not opens:
-            chk.violated(*rule, ctx.func, "the parent image is not opened")
-            continue
-        ex_terms = []
-        for _n, t, conds in opens:
-            for tt in [t] + [c for c, _ in conds]:
-                for x in S.walk(tt):
-                    if isinstance(x, tuple) and x and x[0] == "call" and x[1] in (".exists", ".is_file") and x not in ex_terms:
-                        ex_terms.append(x)
-        bad, und = [], None
-        import itertools as _it
-        ncase = 0
-        for Pv in (PP("/evidence/vm/child"), PP("/a")):
-            for hint in hints:
-                for combo in _it.product((True, False), repeat=len(ex_terms)):
-                    ov = {P: Pv, H: hint}
-                    base_val = S.Valuation(1, override=ov)
-                    try:
-                        answers = {str(S.ev(x[2][0], base_val)): v for x, v in zip(ex_terms, combo)}
-                    except S.EvalError as e:
-                        und = f"cannot evaluate a candidate path: {e}"
-                        break
-                    if len(answers) != len(ex_terms):
-                        continue  # the same path asked twice with different answers: not a situation
-                    ov2 = dict(ov)
-                    ov2.update(dict(zip(ex_terms, combo)))
-                    val = S.Valuation(1, override=ov2)
-                    got = None
-                    try:
-                        for _n, t, conds in opens:
-                            if eval_conds(conds, val):
-                                got = S.ev(t, val)
-                                break
-                    except S.EvalError as e:
-                        und = f"cannot evaluate the opened path: {e}"
-                        break
-                    asked = []
-
-                    def exists(c, _a=answers, _asked=asked):
-                        _asked.append(str(c))
-                        return _a.get(str(c))
-                    want = want_fn(Pv, hint, exists)
-                    if any(a_ not in answers for a_ in asked):
-                        bad.append(f"hint {hint!r}: the specified first candidate {asked[0]} is never tested for existence")
-                        continue
-                    ncase += 1
-                    if not isinstance(got, PP) or str(got) != str(want):
-                        bad.append(f"dir {Pv}, hint {hint!r}, exists {answers}: opens {got}, specified {want}")
-                if und:
-                    break
-            if und:
-                break
-        if und or (bad and any(S.opaque_parts(t) for _n, t, _c in opens)):
-            chk.undecided(*rule, ctx.func, und or f"the opened path contains a part the analyser cannot interpret: {bad[0]}")
-        else:
-            chk.decide(not bad, *rule, ctx.func, text + f" ({ncase} hint x existence situations evaluated)" if not bad else "; ".join(bad[:2]))
-    # Parallels
+        cases = [({P: Pv, H: hint}, (Pv, hint)) for Pv in (PP("/evidence/vm/child"), PP("/a")) for hint in hints]
+        _opened_path_by_evaluation(chk, ctx, opens, cases, lambda case, exists, _w=want_fn: _w(case[0], case[1], exists),
+                                   ("K-PATH", f"{fmt}:parent-candidates"), text)
+    # Parallels: the image file that is opened, decided the same way
     ctx = chk.func("disk/hdd.py", "HDD._open_image")
     hk = chk.prog.cls("disk/hdd.py", "HDD").key
     root = R.self_attr(hk, "path")
     PATH = ("p", ctx.qual, 1)
-    name = ("attr", PATH, "name")
-    A = lambda x, n: R.attr(x, n)  # noqa: E731
-    w1 = S.op("div", root, name)
-    w2 = S.op("div", S.op("div", A(root, "parent"), A(A(PATH, "parent"), "name")), name)
-    w3 = S.op("div", S.op("div", S.op("div", A(A(root, "parent"), "parent"), A(A(A(PATH, "parent"), "parent"), "name")),
-                          A(A(PATH, "parent"), "name")), name)
-    cands = []
-    for n in _own_nodes(ctx.func):
-        if isinstance(n, ast.Assign) and isinstance(n.targets[0], ast.Name) and n.targets[0].id != "root":
-            t = R.expr(ctx, n.value, ctx.cfg.node_of[n])
-            if t[0] == "op" and t[1] == "div":
-                cands.append((n, t))
-    cands.sort(key=lambda c_: c_[0].lineno)
-    got = [t for _, t in cands]
-    chk.decide(got == [w1, w2, w3], "K-PATH", "parallels:image-candidates", ctx.func,
-               "for a missing absolute path: <hdd>/<name>, <vm dir>/<image dir name>/<name>, <vm dir parent>/<pvm name>/<image dir name>/<name>, in this order",
-               expected=str([S.show(x)[-80:] for x in (w1, w2, w3)]), found=str([S.show(x)[-80:] for x in got]))
-    # each later candidate only when the earlier does not exist
-    oks = True
-    for n, t in cands[1:]:
-        conds = conds_sym(chk, ctx, n)
-        oks = oks and any(c[0] == "not" and c[1][0] == "call" and c[1][1] == ".exists" and p for c, p in conds)
-    chk.decide(oks, "K-PATH", "parallels:candidates-tried-in-order", ctx.func, "a later candidate is tried only when the earlier one does not exist")
-    outs = func_outcomes(chk, ctx)
-    rel_ret = [o for o in outs if o[0] == "return" and S.contains(o[3], lambda x: x == S.op("div", root, PATH))]
-    chk.decide(bool(rel_ret), "K-PATH", "parallels:relative-path", ctx.func, "a relative image path is resolved against the .hdd directory")
+    opens = []
+    for o in func_outcomes(chk, ctx):
+        if o[0] == "return":
+            for extra, alt in split_alternatives(o[3]):
+                if alt[0] == "call" and alt[1] == ".open" and alt[2]:
+                    opens.append((o[1], alt[2][0], list(o[2]) + list(extra)))
+
+    def hdd_want(case, exists):
+        rootv, pathv = case
+        if not pathv.is_absolute():
+            return rootv / pathv
+        if exists(pathv):
+            return pathv
+        c1 = rootv / pathv.name
+        if exists(c1):
+            return c1
+        c2 = rootv.parent / pathv.parent.name / pathv.name
+        if exists(c2):
+            return c2
+        return rootv.parent.parent / pathv.parent.parent.name / pathv.parent.name / pathv.name
+
+    # self.path derives from the constructor's path argument (its parent when a file inside the .hdd directory was given): the model
+    # drives it through that argument, as a directory
+    root_leaves = [x for x in S.walk(root) if isinstance(x, tuple) and x and x[0] == "p"]
+    ROOT = root_leaves[0] if root_leaves else root
+    cases = [({ROOT: rv, PATH: pv}, (rv, pv)) for rv in (PP("/evidence/copy/vm.pvm/disk.hdd"), PP("/x/y.hdd"))
+             for pv in (PP("disk.hds"), PP("sub/disk.hds"), PP("/Users/u/Parallels/orig.pvm/orig.hdd/orig.hds"), PP("/a/b.hdd/c.hds"))]
+    _opened_path_by_evaluation(chk, ctx, opens, cases, hdd_want, ("K-PATH", "parallels:image-candidates"),
+                               "relative paths against the .hdd directory; an existing absolute path as it is; a missing one as <hdd>/<name>, "
+                               "<vm dir>/<image dir name>/<name>, <vm dir parent>/<pvm name>/<image dir name>/<name>, the first that exists (the last unchecked)")
+    modes = [R.expr(ctx, n.args[0], ctx.cfg.node_for(n)) for n in _own_nodes(ctx.func)
+             if isinstance(n, ast.Call) and isinstance(n.func, ast.Attribute) and n.func.attr == "open" and n.args]
+    chk.decide(bool(modes) and all(m == S.C("rb") for m in modes), "K-PATH", "parallels:image-opened-read-only", ctx.func, "image files are opened 'rb'",
+               nontrivial=False)
+
+
+def _opened_path_by_evaluation(chk: Check, ctx, opens, cases, want_fn, rule, text):
+    """Which path a function opens, decided on model inputs: `opens` = [(node, path term, path conditions)], `cases` = [(override,
+    case)], `want_fn(case, exists)` the specified choice.  `.exists()` / `.is_file()` are interpreted as an oracle over paths; every
+    combination of answers for the paths the specification can ask about is a situation."""
+    import itertools as _it
+    from pathlib import PurePosixPath as PP
+    if not opens:
+        chk.violated(*rule, ctx.func, "nothing is opened")
+        return
+    bad, und = [], None
+    ncase = 0
+    for ov, case in cases:
+        # the paths the specification may ask about: explore its decision tree
+        universe = []
+
+        def probe(c, _u=universe):
+            if str(c) not in _u:
+                _u.append(str(c))
+            return False
+        want_fn(case, probe)
+        grew = True
+        while grew:  # answers of True can reveal no new path in these specifications, but keep it general
+            grew = False
+            for combo in _it.product((True, False), repeat=len(universe)):
+                ans = dict(zip(universe, combo))
+                before = len(universe)
+                want_fn(case, lambda c, _a=ans, _u=universe: (_u.append(str(c)) or False) if str(c) not in _a and str(c) not in _u else _a.get(str(c), False))
+                if len(universe) != before:
+                    grew = True
+                    break
+        for combo in _it.product((True, False), repeat=len(universe)):
+            answers = dict(zip(universe, combo))
+            foreign = []
+
+            def oracle(p_, *a, _a=answers, _f=foreign):
+                if str(p_) not in _a:
+                    _f.append(str(p_))
+                    return False
+                return _a[str(p_)]
+            val = S.Valuation(1, override=ov)
+            val.call_models = {".exists": oracle, ".is_file": oracle}
+            got = None
+            try:
+                for _n, t, conds in opens:
+                    if eval_conds(conds, val):
+                        got = S.ev(t, val)
+                        break
+            except S.EvalError as e:
+                und = f"cannot evaluate the opened path: {e}"
+                break
+            want = want_fn(case, lambda c, _a=answers: _a[str(c)])
+            ncase += 1
+            if not isinstance(got, PP) or str(got) != str(want):
+                bad.append(f"case {tuple(map(str, case)) if isinstance(case, tuple) else case}, existing {sorted(k for k, v in answers.items() if v)}: "
+                           f"opens {got}, specified {want}" + (f" (asks about {foreign[0]}, which the specification never tests)" if foreign else ""))
+        if und:
+            break
+    if und or (bad and any(S.opaque_parts(t) for _n, t, _c in opens)):
+        chk.undecided(*rule, ctx.func, und or f"the opened path contains a part the analyser cannot interpret: {bad[0]}")
+    else:
+        chk.decide(not bad, *rule, ctx.func, text + f" ({ncase} input x existence situations evaluated)" if not bad else "; ".join(sorted(set(bad))[:2]))
 
 
 def _chain_by_evaluation(chk: Check, cctx):
